@@ -27,7 +27,8 @@ func init() {
 		Assumptions: []string{"sync.Cond.Wait returns with the lock held", "the generic cache fires the eviction callback exactly once per entry (C15)"},
 		Tech:        "static analysis: lock-state dataflow on cacheWrapper/sharedEncryption, loop-exit guarded-by-condition, who-may-call over the closure-binding call graph",
 		NeedU1:      true,
-		Rules:       []func(*Ctx){ruleC16GetAtomic, ruleC16TeardownWaits, ruleC16SingleTeardownPath, ruleC16SharedWrapper, ruleC09CloseChains, ruleC15CallbackExactlyOnce, ruleC15RemovalNotifies, ruleC15ExpiryEvicts, ruleC15RemoveUnlinks, ruleC15RelinkIsAMove, ruleC15ElementRecorded, condOnSameLockRule("C16", [4]string{pkgApp, "sharedEncryption", "mu", "cond"}), lostUpdateRule("C16", "github.com/godaddy/asherah/go/appencryption"), lockBalancedRule("C16", 5, lockDomSpec{pkgApp, "cacheWrapper", "mu"}, lockDomSpec{pkgApp, "sharedEncryption", "mu"})},
+		NeedU2:      true,
+		Rules:       []func(*Ctx){ruleC16GetAtomic, ruleC16TeardownWaits, ruleC16SingleTeardownPath, ruleC16SharedWrapper, ruleC09CloseChains, ruleC19CloseOnExit, ruleC15CallbackExactlyOnce, ruleC15RemovalNotifies, ruleC15ExpiryEvicts, ruleC15RemoveUnlinks, ruleC15RelinkIsAMove, ruleC15ElementRecorded, condOnSameLockRule("C16", [4]string{pkgApp, "sharedEncryption", "mu", "cond"}), lostUpdateRule("C16", "github.com/godaddy/asherah/go/appencryption"), lockBalancedRule("C16", 5, lockDomSpec{pkgApp, "cacheWrapper", "mu"}, lockDomSpec{pkgApp, "sharedEncryption", "mu"})},
 	})
 }
 
